@@ -53,6 +53,14 @@ func checkC03(c *Ctx, r *rep.Report) {
 	ruleSmallOrder(r, p, rl)
 	ruleBatchAll(c, r, p, rl, fl)
 	scalarLayer(c, r)
+	// "every build configuration": signer and verifier use the expected member of each sibling-file group and the same tables
+	for _, cfg := range c.Configs() {
+		if q, _ := c.mustLoad(r, cfg); q != nil {
+			ruleConfigSelection(r, q)
+			ruleFieldConstants(r, q)
+			ruleTables(r, q)
+		}
+	}
 }
 
 func checkC09(c *Ctx, r *rep.Report) {
@@ -155,4 +163,14 @@ func checkC17(c *Ctx, r *rep.Report) {
 	ruleCofactor(r, p)
 	ruleHeapSeed(r, p, rl.Msm)
 	ruleUnrolledChains(r, p)
+	ruleZeroScanGuard(r, p, rl)
+	// the predicates that steer the Bos-Coster loop, on both limb layouts
+	for _, cfg := range c.Configs() {
+		if cfg == "amd64-noasm" {
+			continue
+		}
+		if q, _ := c.mustLoad(r, cfg); q != nil {
+			ruleVartimePredicates(r, q)
+		}
+	}
 }
